@@ -68,15 +68,22 @@ func yamlUnmarshalStream(in []byte) ([]any, error) {
 }
 
 func yamlTranslateNode(node *yaml.Node) (any, error) {
+	return yamlTranslate(node, map[*yaml.Node]bool{})
+}
+
+// yamlTranslate: expanding tracks the aliases being expanded, so that an
+// anchor that contains an alias to itself (a: &x [*x]) is an error instead
+// of unbounded recursion.
+func yamlTranslate(node *yaml.Node, expanding map[*yaml.Node]bool) (any, error) {
 	switch node.Kind {
 	case yaml.DocumentNode:
-		return yamlTranslateNode(node.Content[0])
+		return yamlTranslate(node.Content[0], expanding)
 
 	case yaml.SequenceNode:
 		ret := []any{}
 
 		for _, v := range node.Content {
-			v2, err := yamlTranslateNode(v)
+			v2, err := yamlTranslate(v, expanding)
 			if err != nil {
 				return nil, err
 			}
@@ -92,7 +99,7 @@ func yamlTranslateNode(node *yaml.Node) (any, error) {
 		// First see if there's a merge statement, and merge the referenced map(s) into ret.
 		for i := 0; i+1 < len(node.Content); i += 2 {
 			if node.Content[i].Value == "<<" {
-				v2, err := yamlTranslateNode(node.Content[i+1])
+				v2, err := yamlTranslate(node.Content[i+1], expanding)
 				if err != nil {
 					return nil, err
 				}
@@ -110,7 +117,7 @@ func yamlTranslateNode(node *yaml.Node) (any, error) {
 				continue
 			}
 
-			v2, err := yamlTranslateNode(node.Content[i+1])
+			v2, err := yamlTranslate(node.Content[i+1], expanding)
 			if err != nil {
 				return nil, err
 			}
@@ -151,7 +158,14 @@ func yamlTranslateNode(node *yaml.Node) (any, error) {
 		}
 
 	case yaml.AliasNode:
-		return yamlTranslateNode(node.Alias)
+		if expanding[node.Alias] {
+			return nil, fmt.Errorf("yaml alias *%s: %w", node.Value, ErrCircularRef)
+		}
+
+		expanding[node.Alias] = true
+		defer delete(expanding, node.Alias)
+
+		return yamlTranslate(node.Alias, expanding)
 
 	case 0:
 		return nil, nil
